@@ -160,7 +160,7 @@ LLd1(p) ==
   /\ UNCHANGED <<want, priv, readok, loaded, crashes, dead, reqs>>
 
 -----------------------------------------------------------------------------
-Running(p) == pc[p] \notin {"idle", "done", "error", "killed"}
+Running(p) == pc[p] \notin {"idle", "done", "error", "killed", "toolerror"}
 
 Crash(p) ==                        \* SIGKILL / power loss: shared files stay as they are, private state is garbage
   /\ Running(p)
@@ -170,6 +170,15 @@ Crash(p) ==                        \* SIGKILL / power loss: shared files stay as
   /\ priv' = [priv EXCEPT ![p] = "none"]
   /\ loaded' = [loaded EXCEPT ![p] = "none"]
   /\ UNCHANGED <<want, fin, readok, dead, failed, reqs>>
+
+ToolFails(p) ==                    \* cython / cc / ld ends with an error although its input is fine (killed by the OOM
+  /\ ~Legacy                       \* killer, disk full): the request of THIS process ends with an exception, the
+  /\ pc[p] \in {"cythonize", "build"}   \* interpreter lives on, nothing shared was touched; like a crash it is an
+  /\ crashes < MaxCrash            \* interruption, so the request is allowed to fail -- the NEXT one is not
+  /\ crashes' = crashes + 1
+  /\ pc' = [pc EXCEPT ![p] = "toolerror"]
+  /\ priv' = [priv EXCEPT ![p] = "none"]
+  /\ UNCHANGED <<want, fin, readok, loaded, dead, failed, reqs>>
 
 TimePasses == UNCHANGED vars     \* builds may take arbitrarily long: the protocol has no timing assumption (the
                                  \* harness ages every artefact by an hour in the middle of a race)
@@ -183,7 +192,7 @@ ClearCache ==
   /\ UNCHANGED <<pc, want, priv, readok, loaded, crashes, dead, failed, reqs>>
 
 Restart(p) ==                      \* the slot of a finished process is taken by a fresh interpreter
-  /\ pc[p] = "done" /\ reqs[p] < MaxReq
+  /\ pc[p] \in {"done", "toolerror"} /\ reqs[p] < MaxReq
   /\ pc' = [pc EXCEPT ![p] = "idle"]
   /\ UNCHANGED <<want, fin, priv, readok, loaded, crashes, dead, failed, reqs>>
 
@@ -191,7 +200,8 @@ Fixed(p)  == MkDir(p) \/ PyxOpen(p) \/ PyxWrite(p) \/ Cythonize(p) \/ Build(p) \
 Leg(p)    == LTrunc(p) \/ LWrite(p) \/ LCy0(p) \/ LCy1(p) \/ LCc0(p) \/ LCc1(p) \/ LLd0(p) \/ LLd1(p)
 Work(p)   == Import1(p) \/ Import2(p) \/ (IF Legacy THEN Leg(p) ELSE Fixed(p))
 
-Next == TimePasses \/ ClearCache \/ \E p \in Procs : (\E m \in Srcs : Request(p, m)) \/ Work(p) \/ Crash(p) \/ Restart(p)
+Next == TimePasses \/ ClearCache
+        \/ \E p \in Procs : (\E m \in Srcs : Request(p, m)) \/ Work(p) \/ Crash(p) \/ ToolFails(p) \/ Restart(p)
 
 Spec     == Init /\ [][Next]_vars
 FairSpec == Spec /\ \A p \in Procs : WF_vars(Work(p))
@@ -203,7 +213,8 @@ NoFailedRequest    == failed = {}
 LoadedRight        == \A p \in Procs : pc[p] = "done" => loaded[p] = want[p]
 NoOverwrite        == [][(\A m \in Srcs : fin[m]["so"] = Complete => fin'[m]["so"] = Complete)
                          \/ (\A m \in Srcs : fin'[m]["so"] = Absent)]_vars       \* ... except by clearing the whole cache
-Recovery           == \A p \in Procs : (pc[p] = "import1") ~> (pc[p] \in {"done", "idle"})
+Recovery           == \A p \in Procs : (pc[p] = "import1") ~> (pc[p] \in {"done", "idle", "toolerror"})
                       \* every started request ends with the module loaded, unless the process is crashed
-                      \* (-> idle); with NoFailedRequest/NoInterpreterDeath this excludes error/killed
+                      \* (-> idle) or one of its build tools was interrupted (-> toolerror); with
+                      \* NoFailedRequest/NoInterpreterDeath this excludes error/killed
 =============================================================================
